@@ -10,22 +10,22 @@ VERIF = os.path.dirname(HERE)
 sys.path.insert(0, HERE)
 
 TECH = {
-    "C01": "MIR path enumeration + dominance: guarded constructors (bracket string, unary minus), semicolon table and first-target clause, lexeme table, collapse comment tests, frozen tables of feature-gated arms and comment guards, strip contracts; interpolated-string brace guard on the formatted segment; bracket-string predicate path table; type-parenthesis tables (R-TYPAREN); per-variant getter/setter field agreement (R-KEEP(e)); frozen table of comment tests that must force the hanging layout (R-COMMENTLAYOUT); escape-rewriting table (R-REGEX) also under C01; grammar oracle of parenthesis removal for every operand role",
-    "C02": "MIR path enumeration: variant preservation of every formatter arm, child-from-own-element closures, lexeme table, parenthesis and type-parenthesis decision tables vs grammar oracle, call-sugar table, symbolic evaluation of rewritten literals; R-COMMENTLAYOUT (no code swallowed by a comment at nine confirmed sites); getter/setter field agreement; Luau tuple contents under the enclosing context",
+    "C01": "MIR path enumeration + dominance: guarded constructors (bracket string, unary minus), semicolon table and first-target clause, lexeme table, collapse comment tests, frozen tables of feature-gated arms and comment guards, strip contracts; interpolated-string brace guard on the formatted segment; bracket-string predicate path table; type-parenthesis tables (R-TYPAREN); per-variant getter/setter field agreement (R-KEEP(e)); frozen table of comment tests that must force the hanging layout (R-COMMENTLAYOUT); escape-rewriting table (R-REGEX) also under C01; grammar oracle of parenthesis removal for every operand role; semicolon decision consults last children only (R-SEMI(last))",
+    "C02": "MIR path enumeration: variant preservation of every formatter arm, child-from-own-element closures, lexeme table, parenthesis and type-parenthesis decision tables vs grammar oracle, call-sugar table, symbolic evaluation of rewritten literals; R-COMMENTLAYOUT (no code swallowed by a comment at nine confirmed sites); getter/setter field agreement; Luau tuple contents under the enclosing context; semicolon decision consults last children only (R-SEMI(last): accessor / field-projection blacklist over the call closure of check_stmt_requires_semicolon)",
     "C03": "MIR typestate + accounting: trivia obligations of every discarded token discharged on all paths, Replace-site accounting and census, kept-token trivia pipeline (format_token / load_token_trivia / format_eof), getter/setter side agreement, frozen comment guards; R-COMMENTLAYOUT path tables; taken comment vectors consumed on every path (R-TAKE); printed text not post-processed (R-PRINT); getter-copied comments leave their source (R-COPY); token/expression pairs from one node (R-PAIR)",
     "C04": "constant + regex-AST audit of the escape rewriting, decision-table extraction of quote selection; bracket-string guard and predicate path table (a long string after `[` is another literal); InterpolatedString segments rebuilt from the input literal only, no regex rewrite outside the StringLiteral arm; no lossy decoding of the input (R-EXACTREAD); R-PRINT; parser input provenance (R-PARSE(input))",
     "C05": "MIR decision-table extraction (ExpressionContext x inner kind) + role/context call-site pairs vs Lua grammar oracle, all layout paths; composite oracle kinds for unary operators over greedy operands; who may call remove_condition_parentheses",
     "C07": "MIR exhaustiveness of matches on non_exhaustive full_moon enums per feature configuration; dominance rules; prefix-role parenthesis invariant behind a stated belief; no formatter applied to a formatter's result (R-ONCE); caller-supplied offsets never index text (R-SLICE); R-ONCE through iterator items and closure parameters; parser input provenance and syntax conversion table (R-PARSE); frozen set of discarded trial-layout results (R-WASTE: formatting hoisted out of its guard is exponential in the depth); frozen bounded-cost trial shapes (R-TRIALSHAPE); frozen comment guards (R-GUARD)",
     "C08": "MIR dominance: skip edge returns the node untouched, block post-processing guarded by FormatNode::Normal, toggle pairing; dominance of the range answers by the exit of the ignore-directive scan; toggle state threaded through the walk; table-field walkers ask about ignored fields; the sort guard walks the whole group (iterator-chain provenance); frozen comment guards (R-GUARD); toggle independent of the range (R-RANGE(toggle))",
     "C09": "MIR dominance + who-may-call on the out-of-range path; exhaustive enumeration of the orderings of (node start, node end, start bound, end bound) against the path table of the range test; abstract block-indent levels composed over the range-only visitor's call graph (R-INDENT); table-field walkers of the range-only visitor honour ignore directives; R-ONCE (formatted nodes carry no positions); out-of-range statements handed to the dispatching formatter (R-SKIP(h) path table); R-RANGE(toggle)",
-    "C10": "MIR who-may-construct whitespace tokens, per-path constant audit of newline/indent literals, postcondition of the EOF whitespace trimmer on every return path, sanitiser-caller table; summary-based taint analysis of raw input trivia to the trivia sinks (R-RAW) with the sanitiser's postcondition; frozen comment guards (R-GUARD); builder chains over cloned input nodes replace every field (R-BUILDER, ADT field lists); R-PRINT; toggle pairing on the last statement (R-SKIP(d)); closures of formatters never return bare clones of input nodes (R-RAWNODE(closure))",
+    "C10": "MIR who-may-construct whitespace tokens, per-path constant audit of newline/indent literals, postcondition of the EOF whitespace trimmer on every return path, sanitiser-caller table; summary-based taint analysis of raw input trivia to the trivia sinks (R-RAW) with the sanitiser's postcondition; frozen comment guards (R-GUARD); builder chains over cloned input nodes replace every field (R-BUILDER, ADT field lists); R-PRINT; toggle pairing on the last statement (R-SKIP(d)); closures of formatters never return bare clones of input nodes (R-RAWNODE(closure)); CFG path exclusion of padding application and multi-line layout in format_index (R-PADLINE, backward dataflow through the vec! expansion and own closures)",
     "C11": "MIR decision-table extraction of option functions vs documented meaning, must-call siblings; quoted-string path clause; look-ahead table of the call formatter; both directions of the call-parentheses decision (three-valued documented conditions); measurement copies never returned (R-OPT(measure)); R-RAWNODE(closure)",
     "C12": "MIR who-may-call sort, stable-sort callee, gating as a path property, first-iteration decision table of the grouping (previous part x kind x line distance), ignore pairing; (statement, semicolon) pairs moved whole; membership evidence (exactly one name / expression) on every group-member path; frozen table of feature-gated arms of the sorter's predicates (R-ARMS); toggle walk dominates every emit and forms one state (R-SORT(toggle)); the sort pass rewrites leading trivia only; every statement lands in a partition (R-GROUP(total))",
     "C13": "MIR who-may-write file system / exit status, dominance by !opt.check, atomic-monotone status writes; verification flag wiring; exact no-difference tests of the diff producers (R-DIFFNONE); path table of check-mode verdicts (Complete only on create_diff's None; R-CHECKVERDICT); diff arguments as read (R-DIFFARGS); every Err edge of the output thread raises the status (R-ERRSTATUS); exit status raised by direct stores only, also for the walker (R-ERRSTATUS after F24); R-EXACTREAD",
     "C14": "MIR dominance: write only after Ok and difference; one send per worker; output loop has no early exit; verification flag wiring; build-manifest rule (no panic = abort profile); format only on the parser's Ok edge (R-PARSE); job only inside the pool (R-WORKERS(pool)); no lossy decoding of the input (R-EXACTREAD); panic_count of the pool that runs the jobs; R-ERRSTATUS direct stores; verification level chosen by opt.verify alone (named violation); verification copy taken from the parameter (R-VERIFYINPUT)",
     "C15": "MIR provenance of the returned Config (CLI overrides applied last), path table of the upward search stop test, fallback-location rule, constant audit of config file names; search start directory and search root provenance; stdin file path always seeds the search (R-CFG(k) path table); flag-skipped path clause of load_overrides",
     "C16": "MIR dominance of dispatch by de-duplication; constant audit of globs/ignore names; decision table of explicit-path predicate; walker option order; glob override root; primary / fallback position of the two ignore-file lookups; every path argument becomes a walker root; ignore verdict from matched_path_or_any_parents (R-IGNOREMATCH); dispatch guarded by Path::is_file of the entry path",
-    "C17": "MIR who-may-write stdout, payload provenance, no fs mutation on the stdin path; configuration search root provenance on the stdin path; pool size bound (R-WORKERS); no lossy decoding of stdin (R-EXACTREAD); override-last on the stdin fallback; R-CFG(k); println only under formats refused without --check; R-IGNOREMATCH; logger target never stdout",
+    "C17": "MIR who-may-write stdout, payload provenance, no fs mutation on the stdin path; configuration search root provenance on the stdin path; pool size bound (R-WORKERS); no lossy decoding of stdin (R-EXACTREAD); override-last on the stdin fallback; R-CFG(k); println only under formats refused without --check; R-IGNOREMATCH; logger target never stdout; stdin ignore lookup reached from the respect_ignores test by unconditional edges only (R-IGNOREGUARD, dominance + straight-line reachability)",
     "C18": "MIR dataflow: argument order from format_code's result to TextDiff::from_lines, frozen idiom table of exact no-difference tests with polarity, symbolic linear forms of the JSON line numbers over the DiffOp fields, iterator-chain completeness of the mismatch texts (all changes, matching tag), loop-exit structure, unified-diff builder options; the line diff itself (crate similar) is assumed; path table of check-mode verdicts in format_file / format_string (R-CHECKVERDICT); producer bytes unmodified on the way out of create_diff (R-DIFFBYTES); derived Serialize of DiffMismatch writes every field (R-DIFFSER)",
     "C19": "static race pattern: lattice-monotone atomic status updates, join-before-read, no shared mutable captures; single writer per file name (R-FS); no static / thread-local state in the library (R-NOSTATE); one job per file (dedup clause of R-WALK); pool parameters independent of the thread count",
     "C20": "MIR + ADT facts: flag/config enum conversions total and name preserving, override wiring field-by-field, deny_unknown_fields in derived visitors, editorconfig mapping table; configuration errors propagated (R-CFGERR); provenance of the path handed to editorconfig::parse (R-EC(path): a file, never the searched directory); EditorConfig-derived Config never stored (R-EC(per-file)); path clause of load_overrides (no flag skipped by an early return)",
